@@ -377,7 +377,7 @@ static int do_run(const Args &a)
 	}
 	Stats st;
 	std::map<std::string, int> reported;	/* cls|predicate -> how many shrunk */
-	uint64_t violations = 0, repeats = 0, harness = 0;
+	uint64_t violations = 0, repeats = 0, harness = 0, dropped = 0;
 	double t0 = now_s();
 	size_t nfixed = e->fixed_count(a.cfg);
 	bool capped = false;
@@ -453,9 +453,10 @@ static int do_run(const Args &a)
 		/* ---- gate (a): same plan twice, identical execution hash ---- */
 		uint64_t h1 = e->exec_hash(best), h2 = e->exec_hash(best);
 		if (h1 != h2) {
-			harness++;
-			out_line("{\"type\":\"harness\",\"index\":" + std::to_string(i) +
-				 ",\"detail\":\"nondeterministic execution of minimised plan (gate a), class " + v.cls + "\"}");
+			/* not reported: a violation must replay exactly.  Counted, so that the evidence shows it. */
+			dropped++;
+			out_line("{\"type\":\"dropped\",\"index\":" + std::to_string(i) +
+				 ",\"detail\":\"minimised plan does not execute identically twice (gate a), class " + v.cls + "\"}");
 			continue;
 		}
 		/* ---- gate (b): replay file in a fresh process ---- */
@@ -474,8 +475,9 @@ static int do_run(const Args &a)
 		std::string rtext;
 		int rc = fresh_replay(file, rtext);
 		if (rc != 1 || rtext.find("class=" + bv.cls + " ") == std::string::npos) {
-			harness++;
-			out_line("{\"type\":\"harness\",\"index\":" + std::to_string(i) + ",\"detail\":" +
+			dropped++;
+			unlink(file.c_str());
+			out_line("{\"type\":\"dropped\",\"index\":" + std::to_string(i) + ",\"detail\":" +
 				 jstr("fresh-process replay did not reproduce class " + bv.cls + " (rc " + std::to_string(rc) +
 				      "): " + first_line(rtext)) + ",\"replay\":" + jstr(file) + "}");
 			continue;
@@ -509,7 +511,7 @@ static int do_run(const Args &a)
 		 ",\"requested\":" + std::to_string(a.count) + ",\"capped\":" + (capped ? "true" : "false") +
 		 ",\"plans\":" + std::to_string(st.plans) + ",\"incarnations\":" + std::to_string(st.incarnations) +
 		 ",\"ops\":" + std::to_string(st.ops) + ",\"violations\":" + std::to_string(violations) +
-		 ",\"repeats\":" + std::to_string(repeats) + ",\"harness\":" + std::to_string(harness) +
+		 ",\"repeats\":" + std::to_string(repeats) + ",\"harness\":" + std::to_string(harness) + ",\"dropped\":" + std::to_string(dropped) +
 		 ",\"wall_s\":" + std::to_string(wall) + ",\"sim_seconds\":" + std::to_string(st.sim_seconds) +
 		 ",\"clock_starts\":" + starts + ",\"probes\":" + json_map(pr) + ",\"named\":" + json_map(st.named) +
 		 ",\"distinct_plans\":" + json_set(st.distinct_plans) + ",\"distinct_nontrivial\":" + json_set(st.distinct_nontrivial) +
